@@ -174,5 +174,8 @@ def parse_case(dialect, label, sql, want_cert):
                         cand = keymap.get((x.pos_marker.templated_slice.start, x.pos_marker.templated_slice.stop, x.raw), [])
                         leaves.append(cand[0] if len(cand) == 1 else -1)
             ms = cap["m"].matched_slice
-            out["cert"] = (term, len(segs), leaves == list(range(ms.start, ms.stop)), ms.start, ms.stop)
+            first_code = next((i for i, x in enumerate(segs) if x.is_code), None)
+            truthy = (ms.stop > ms.start) or bool(cap["m"].insert_segments)
+            start_ok = (not truthy) or first_code is None or ms.start == first_code
+            out["cert"] = (term, len(segs), leaves == list(range(ms.start, ms.stop)), ms.start, ms.stop, start_ok)
     return out
